@@ -101,7 +101,7 @@ def r0_model(ctx, visitors):
         f = ctx.fn('%s::Except(Rejector) const' % M)
         ctx.inst(R)
         body = render_stmt(f['body'], f, inline_locals=False)
-        if not ('(var new_matcher (* this))' in body.replace(body.split('(var ')[1].split(' ')[0], 'new_matcher', 1)
+        if not ('(var new_matcher this)' in body.replace(body.split('(var ')[1].split(' ')[0], 'new_matcher', 1)
                 and 'push_back on (. l:' in body and '::rejectors) $0)' in body and body.rstrip('}').endswith('(return l:%s)' % body.split('(var ')[1].split(' ')[0])):
             ctx.report(R, f, f['body'], M + '::Except', 'Except is not copy-this + rejectors.push_back(arg): ' + body[:300])
         # call(): dispatches fn(v, instruction, expansion) in order
@@ -155,21 +155,34 @@ def r0_model(ctx, visitors):
         ctx.inst(R)
         pos = ta[1]['i']
         body = render_stmt(f['body'], f, inline_locals=False)
-        ifs = [n for n in walk(f['body']) if n.get('k') == 'if']
-        ok = False
-        if len(ifs) == 1:
-            c = const_value(ifs[0]['cond'])
-            need = 1 if pos == 16 else 0
-            r = Renderer(f, inline_locals=False)
-            th = r.s(ifs[0].get('then'))
-            el = r.s(ifs[0].get('else'))
-            if c == need == st.get('NeedExpansion') and th.endswith('::storage) $1)') and \
-                    (need == 1 or el.endswith('::storage) (>> (& $0 %d) %d))' % (st['Mask'], pos))):
-                ok = True
+        # decided on the guarded summary: over the feasible paths (the branch on the per-instantiation constant NeedExpansion
+        # is resolved, `if`, `if constexpr` and `?:` alike) the operand's storage ends up as the second word for pos == 16
+        # and as (opcode & Mask) >> pos otherwise
+        from .. import summ, boolform
+        need = 1 if pos == 16 else 0
+        ok = st.get('NeedExpansion') == need
+        try:
+            fin = summ.summary(ctx, f, asserts='ignore').final_values(lambda lv: lv.endswith('::storage)'))
+        except Exception:
+            fin = {}
+        vals = set()
+        for lv, d in fin.items():
+            for val, cond in d.items():
+                if boolform.satisfiable(cond):
+                    vals.add(val)
+        want = '$1' if need else '(>> (& $0 %d) %d)' % (st['Mask'], pos)
+        if vals != {want}:
+            ok = False
         if not ok:
             ctx.report(R, f, f['body'], short_fn(fid),
-                       'Extract is not `NeedExpansion ? expansion : (opcode & Mask) >> pos`: ' + body[:200])
+                       'Extract is not `NeedExpansion ? expansion : (opcode & Mask) >> pos`: %s; ' % sorted(vals) + body[:200])
     ctx.require(n_at >= 100, 'fewer than 100 At<>::Extract instantiations found (%d)' % n_at)
+
+
+def _unwrap_value(e):
+    while isinstance(e, dict) and (e.get('k') == 'cast' or (e.get('k') == 'construct' and e.get('copymove') and len(e.get('args', [])) == 1)):
+        e = e.get('e') if e.get('k') == 'cast' else e['args'][0]
+    return e
 
 
 def _check_decode(ctx, R, f, v, M):
@@ -187,25 +200,28 @@ def _check_decode(ctx, R, f, v, M):
         tname = tabs[0]['name']
     # predicate lambda: matcher.Matches(instruction)
     lams = [x for x in walk(body) if x.get('k') == 'lambda']
-    pred_ok = False
-    pred_var = None
-    for x in walk(body):
-        if x.get('k') == 'var' and isinstance(x.get('init'), dict):
-            for y in walk(x['init']):
-                if y.get('k') == 'lambda':
-                    lf = None
-                    for fid2, g in ctx.F['functions'].items():
-                        if fid2.startswith(y['fn'].rstrip('>').rsplit('<', 1)[0]) and '<lambda@' in fid2 and g.get('body'):
-                            if fid2.startswith(y['fn'].split('<lambda@')[0]) and ('<lambda@' + y['fn'].split('<lambda@')[1].split('>')[0]) in fid2:
-                                lf = g
-                    if lf is not None:
-                        b = render_stmt(lf['body'], lf)
-                        caps = y.get('caps', [])
-                        if b.startswith('{(return (call %s::Matches on $0 ' % M) and len(caps) == 1 and caps[0].get('parm') == 0:
-                            pred_ok = True
-                            pred_var = x['name']
-    if not pred_ok:
+    pred_fns = set()
+    for y in lams:
+        lf = None
+        for fid2, g in ctx.F['functions'].items():
+            if fid2.startswith(y['fn'].rstrip('>').rsplit('<', 1)[0]) and '<lambda@' in fid2 and g.get('body'):
+                if fid2.startswith(y['fn'].split('<lambda@')[0]) and ('<lambda@' + y['fn'].split('<lambda@')[1].split('>')[0]) in fid2:
+                    lf = g
+        if lf is not None:
+            b = render_stmt(lf['body'], lf)
+            caps = y.get('caps', [])
+            if b.startswith('{(return (call %s::Matches on $0 ' % M) and len(caps) == 1 and caps[0].get('parm') == 0:
+                pred_fns.add(y['fn'])
+    # (a named predicate closure that is only handed to the algorithms is replaced by the closure itself in the facts normal form)
+    pred_vars = {x['name'] for x in walk(body) if x.get('k') == 'var' and isinstance(x.get('init'), dict)
+                 and any(y.get('k') == 'lambda' and y.get('fn') in pred_fns for y in [_unwrap_value(x['init'])])}
+    if not pred_fns:
         problems.append('predicate lambda is not matcher.Matches(instruction)')
+
+    def is_pred(e):
+        e = _unwrap_value(e)
+        return isinstance(e, dict) and ((e.get('k') == 'lambda' and e.get('fn') in pred_fns)
+                                        or (e.get('k') == 'ref' and e.get('dk') == 'local' and e.get('name') in pred_vars))
     # first find_if over [begin, end)
     finds = [x for x in walk(body) if x.get('k') == 'var' and isinstance(x.get('init'), dict)
              and any(short_fn(y.get('fn', '')).startswith('std::find_if') for y in walk(x['init']) if y.get('k') == 'call')]
@@ -213,9 +229,10 @@ def _check_decode(ctx, R, f, v, M):
         problems.append('no std::find_if over the table')
     else:
         first = finds[0]
-        ft = r.r(first['init'])
-        if not ('::begin on %s )' % tname in ft and '::end on %s )' % tname in ft and ft.rstrip(')').endswith('l:%s' % pred_var)):
-            problems.append('first find_if does not scan [table.begin(), table.end()) with the predicate: ' + ft[:200])
+        fc = [y for y in walk(first['init']) if y.get('k') == 'call' and short_fn(y.get('fn', '')).startswith('std::find_if')][0]
+        fa = fc.get('args', [])
+        if not (len(fa) == 3 and r.r(fa[0]).endswith('::begin on %s )' % tname) and r.r(fa[1]).endswith('::end on %s )' % tname) and is_pred(fa[2])):
+            problems.append('first find_if does not scan [table.begin(), table.end()) with the predicate: ' + r.r(first['init'])[:200])
         it = first['name']
         rets = [n for n in walk(body) if n.get('k') == 'return']
         rtexts = [r.r(n.get('e')) for n in rets]
@@ -583,7 +600,7 @@ def _fetch_loop(ctx, R):
                 d = pr.r(body[disp])
                 pr.vals[ev] = 'EXP'
                 d = pr.r(body[disp])
-                want = '(call Matcher<%s>::call on %s (* this) %s EXP)' % (INTERP, DEC, read_at(0))
+                want = '(call Matcher<%s>::call on %s this %s EXP)' % (INTERP, DEC, read_at(0))
                 if d != want:
                     probs.append('dispatch is not decoders[opcode].call(*this, opcode, expand_value): ' + d[:200])
             # after the conditional the local holds either value; nothing else may touch pc before the dispatch stages
